@@ -46,7 +46,11 @@ RULE = ("geometry: Hypothesis-generated 3-D masks (each side 1-5, random / dense
         "single-dataset calc_rdm on data[:, neighbours[i]]. evaluate: RDM stacks with distinct "
         "rows x fixed models x method x n_jobs in {1,2,3,4,8,-1} on the threading backend and "
         "{2,4} on the default loky (process) backend; oracle = reference similarity of model "
-        "and row i and the direct eval_fixed on row i. Non-trivial: geometry - at least two mask "
+        "and row i and the direct eval_fixed on row i; evaluate_undefined: 2-12 centres of which a "
+        "proper subset has an all-NaN RDM (NaN rows, or correlation RDMs of searchlights lying in "
+        "zero-filled voxels via get_searchlight_RDMs) x a NaN-tolerant user evaluation function "
+        "x n_jobs in {1,2,4,-1}; oracle = result i carries voxel_index i and equals the function "
+        "called on row i. Non-trivial: geometry - at least two mask "
         "voxels, radius > 1 (spheres clipped by the border of a <=5^3 volume) or threshold "
         "strictly between 0 and 1; rdms - >= 2 centres with different neighbour lists and a "
         "label order that is not sorted or repetitions; chunked - more than 1000 centres; "
@@ -678,6 +682,109 @@ def classify_evaluate(case):
     return labels, n >= 2 and case['n_jobs'] != 1
 
 
+# ---------------------------------------------------------------------------
+# evaluate_models_searchlight with undefined (all-NaN) searchlight RDMs and a user-side
+# evaluation function that copes with them: still one result per centre, in centre order
+
+def eval_tolerant(models, x, method='corr', theta=None):
+    """what a user hands in when some searchlights lie in constant / zero-filled voxels:
+    undefined RDMs score NaN, everything else is the library's eval_fixed"""
+    rec = {'voxel_index': [int(v) for v in x.rdm_descriptors['voxel_index']],
+           'n_rdm': int(x.n_rdm), 'method': method}
+    try:
+        rec['evaluations'] = np.asarray(
+            eval_fixed(models, x, method=method, theta=theta).evaluations, dtype=float)[0, :, 0]
+    except ValueError:
+        rec['evaluations'] = None
+    return rec
+
+
+@st.composite
+def undefined_case(draw):
+    n_cond = draw(st.integers(3, 5))
+    npair = ref.n_pairs(n_cond)
+    n_centers = draw(st.integers(2, 12))
+    via = draw(st.sampled_from(['nan-rows', 'nan-rows', 'pipeline']))
+    # which centres are undefined: a non-empty proper subset, not only the tail
+    undef = draw(st.lists(st.integers(0, n_centers - 2), min_size=1, max_size=n_centers - 1,
+                          unique=True))
+    case = dict(via=via, n_cond=n_cond, undef=sorted(undef),
+                voxel_index=draw(st.lists(st.integers(0, 9999), min_size=n_centers,
+                                          max_size=n_centers, unique=True)),
+                models=[_fix_const(draw(gen.vector(npair, kind='pos')))
+                        for _ in range(draw(st.integers(1, 2)))],
+                method=draw(st.sampled_from(EVAL_METHODS)),
+                n_jobs=draw(st.sampled_from([1, 1, 2, 4, -1])))
+    if via == 'nan-rows':
+        case['rdms'] = [_fix_const(draw(gen.vector(npair, kind='pos'))) for _ in range(n_centers)]
+    else:
+        # searchlights lying wholly in zero-filled voxels (outside the field of view) under
+        # method='correlation': the library itself produces the undefined RDMs
+        reps = draw(st.integers(1, 2))
+        n_live, n_dead = draw(st.integers(4, 8)), draw(st.integers(3, 5))
+        case['events'] = list(range(n_cond)) * reps
+        case['data'] = draw(gen.matrix(n_cond * reps, n_live, kind='float'))
+        case['n_dead'] = n_dead
+        case['neighbors'] = [
+            draw(st.lists(st.integers(n_live, n_live + n_dead - 1) if i in undef
+                          else st.integers(0, n_live - 1), min_size=3, max_size=3, unique=True))
+            for i in range(n_centers)]
+    return case
+
+
+def check_undefined(case):
+    vi = [int(v) for v in case['voxel_index']]
+    n = len(vi)
+    method, n_jobs = case['method'], case['n_jobs']
+    if case['via'] == 'nan-rows':
+        vecs = np.array(case['rdms'], dtype=float)
+        vecs[case['undef']] = np.nan
+        sl = RDMs(vecs.copy(), rdm_descriptors={'voxel_index': np.array(vi)},
+                  dissimilarity_measure='correlation')
+    else:
+        live = np.array(case['data'], dtype=float)
+        data = np.hstack([live, np.zeros((live.shape[0], case['n_dead']))])
+        sl = lib(S.get_searchlight_RDMs, data, np.array(vi), case['neighbors'],
+                 np.array(case['events']), method='correlation', verbose=False)
+        vecs = np.array(sl.dissimilarities, dtype=float)
+    dead = np.all(np.isnan(vecs), axis=1)
+    if not dead.any() or dead.all() or not np.all(np.isfinite(vecs[~dead])):
+        raise Reject('no mixture of undefined and fully defined searchlights',
+                     'degenerate:no-undefined-searchlight')
+    models = [ModelFixed('m%d' % k, np.array(m, dtype=float)) for k, m in enumerate(case['models'])]
+    with joblib.parallel_backend('threading'):
+        res = lib(S.evaluate_models_searchlight, sl, models, eval_tolerant, method=method,
+                  n_jobs=n_jobs, on_error='violation', sig='raises:evaluate_models_searchlight')
+    require(isinstance(res, list), 'return type %s' % type(res).__name__, 'evaluate:format')
+    require(len(res) == n, '%d results for %d centres of which %d have an undefined (all-NaN) RDM '
+            '(n_jobs=%r)' % (len(res), n, int(dead.sum()), n_jobs), 'evaluate:undefined-length')
+    for i in range(n):
+        require(res[i]['voxel_index'] == [vi[i]] and res[i]['n_rdm'] == 1,
+                'result %d comes from the searchlight with voxel_index %s, centre %d is voxel %d '
+                '(undefined searchlights: %s)' % (i, res[i]['voxel_index'], i, vi[i],
+                                                  np.flatnonzero(dead).tolist()),
+                'evaluate:undefined-order')
+        require(res[i]['method'] == method, 'method not passed through', 'evaluate:arguments')
+        direct = eval_tolerant(models, sl[i], method=method)['evaluations']
+        got = res[i]['evaluations']
+        require((got is None) == (direct is None) and
+                (got is None or core.close(got, direct, rtol=1e-12, atol=1e-13)),
+                'result %d = %s, the evaluation function called directly on RDM %d gives %s' % (
+                    i, got, i, direct), 'evaluate:undefined-vs-direct')
+        if not dead[i]:
+            want = [ref.sim(method, np.array(m, dtype=float), vecs[i]) for m in case['models']]
+            require_close(got, np.array(want), 'result %d vs reference similarity' % i,
+                          'evaluate:value', rtol=1e-9, atol=1e-10)
+
+
+def classify_undefined(case):
+    n = len(case['voxel_index'])
+    labels = ['via:' + case['via'], 'n_jobs=%r' % case['n_jobs'], 'method:' + case['method'],
+              'undefined-first' if 0 in case['undef'] else 'defined-first',
+              'undefined=%s' % ('1' if len(case['undef']) == 1 else '>1')]
+    return labels, n >= 2
+
+
 SUBCHECKS = [
     SubCheck('geometry', geometry_case(), check_geometry, classify_geometry, quick=600,
              thorough=6400,
@@ -697,6 +804,11 @@ SUBCHECKS = [
              thorough=24, max_reject_frac=0.5,
              doc='same with the default process backend (n_jobs 2/4, real worker processes), '
                  'and equality with n_jobs=1'),
+    SubCheck('evaluate_undefined', undefined_case(), check_undefined, classify_undefined, quick=60,
+             thorough=600,
+             doc='stacks with all-NaN (undefined) searchlight RDMs between defined ones, given as '
+                 'NaN rows or produced by correlation over zero-filled voxels, and an evaluation '
+                 'function that tolerates them: one result per centre, in centre order'),
 ] + [
     Enumeration('geometry_exh_%02d' % k, _exh_enum(k), check_geometry, classify_geometry,
                 doc='masks m = %d mod %d of all 2^18 masks of a 2x3x3 volume' % (k, N_EXH),
